@@ -2,9 +2,10 @@ import DeepModel.Driver.Proto
 import DeepModel.Model.Wire
 open Lean Proto Wire Extracted.Wire
 
-/-! text: a JSON string when it is valid text, else {"cp":[code points]} -/
+/-! text: a JSON string when it is valid text (and free of the raw line separators U+0085, U+2028, U+2029, on which
+    the harness would split the output), else {"cp":[code points]} -/
 def textJ (t : Text) : Json :=
-  if t.ok then Json.str (String.ofList (t.map Char.ofNat)) else Json.mkObj [("cp", toJson t)]
+  if t.ok && t.all (fun c => c != 0x85 && c != 0x2028 && c != 0x2029) then Json.str (String.ofList (t.map Char.ofNat)) else Json.mkObj [("cp", toJson t)]
 
 def parseText (j : Json) : Except String Text :=
   match j with
